@@ -9,9 +9,9 @@ git diff > /tmp/confirm-$ID$SFX.cur.diff
 timeout 1200 cmake --build $W/_build -j8 2>&1 | tail -2
 timeout 300 sh $S/run_demo.sh > /tmp/confirm-$ID$SFX.demo1 2>&1; D1=$?
 timeout 1500 ctest --test-dir $W/_build -j6 --timeout 900 2>&1 | tail -4 > /tmp/confirm-$ID$SFX.ctest; grep -q "100% tests passed" /tmp/confirm-$ID$SFX.ctest; T=$?
-git stash -q; timeout 1200 cmake --build $W/_build -j8 2>&1 | tail -2
+git diff > /tmp/confirm-$ID$SFX.applied.diff; git apply -R /tmp/confirm-$ID$SFX.applied.diff; timeout 1200 cmake --build $W/_build -j8 2>&1 | tail -2
 timeout 300 sh $S/run_demo.sh > /tmp/confirm-$ID$SFX.demo0 2>&1; D0=$?
-git stash pop -q
+git apply /tmp/confirm-$ID$SFX.applied.diff
 echo "RESULT id=$ID$SFX demo_with_patch_rc=$D1 ctest_with_patch_ok=$((1-T)) demo_without_patch_rc=$D0"
 if [ $D1 -ne 0 ] && [ $T -eq 0 ] && [ $D0 -eq 0 ]; then
   mkdir -p /verif/seeded/$ID$SFX && cp $S/patch.diff $S/notes.txt /verif/seeded/$ID$SFX/ && cp $S/demo.c $S/run_demo.sh /verif/seeded/$ID$SFX/ 2>/dev/null
